@@ -70,7 +70,7 @@ Apply(e) ==
            IF pend[n] # <<>>
            THEN IF MatchTx(Head(pend[n]), e)
                 THEN LET b2 == Bm22Step(bm, dm.acc, Tr.cfg, n, e) IN
-                     S(ns, pc, [pend EXCEPT ![n] = Tail(@)], dm, b2.bm, b2.bad)
+                     S(ns, pc, [pend EXCEPT ![n] = Tail(@)], dm, b2.bm, IF Tr.expect.bus THEN b2.bad ELSE {})
                 ELSE Fail("tx differs from the frame the specification predicts")
            ELSE IF pc[n].ph \in {"rcv", "mpg", "snd", "burst", "eoms", "bexit"}
            THEN LET r == RunToEmit(ns[n], Cfg(n), pc[n], e.t) IN
@@ -78,7 +78,7 @@ Apply(e) ==
                 ELSE IF r.out = <<>> THEN Fail("tx not predicted by the job pass")
                 ELSE IF MatchTx(r.out[1], e)
                 THEN LET b2 == Bm22Step(bm, dm.acc, Tr.cfg, n, e) IN
-                     S([ns EXCEPT ![n] = r.ns], [pc EXCEPT ![n] = r.pc], pend, dm, b2.bm, b2.bad)
+                     S([ns EXCEPT ![n] = r.ns], [pc EXCEPT ![n] = r.pc], pend, dm, b2.bm, IF Tr.expect.bus THEN b2.bad ELSE {})
                 ELSE Fail("job tx differs from the frame the specification predicts")
            ELSE Fail("tx without a cause")
       [] e.ev = "cb" ->
@@ -92,7 +92,7 @@ Apply(e) ==
            ELSE IF Has2(e, "exc") # r.exc THEN Fail("rx exception behaviour")
            ELSE S([ns EXCEPT ![n] = r.ns], pc, [pend EXCEPT ![n] = r.out \o @], dm, bm, {})
       [] e.ev = "ptx" ->      \* a frame put on the bus by the reference peer (not a stack under test)
-           LET b2 == Bm22Step(bm, dm.acc, Tr.cfg, n, e) IN S(ns, pc, pend, dm, b2.bm, b2.bad)
+           LET b2 == Bm22Step(bm, dm.acc, Tr.cfg, n, e) IN S(ns, pc, pend, dm, b2.bm, IF Tr.expect.bus THEN b2.bad ELSE {})
       [] e.ev = "wake" ->
            IF pc[n].ph # "idle" THEN Fail("wake while running")
            ELSE IF e.why = "token"
